@@ -520,6 +520,9 @@ func asDisk(c rescorr.Case, roots []int, layout, hand string) rescorr.Case {
 	for k, v := range c.Extra {
 		c2.Extra[k] = v
 	}
+	if layout == "read" {
+		hand = "read"
+	}
 	c2.Extra["disk"], c2.Extra["roots"], c2.Extra["layout"], c2.Extra["hand"] = "1", rootsArg(roots), layout, hand
 	c2.Extra["label"] = c.Extra["label"] + "+disk:" + layout + "/" + hand + "/roots=" + rootsArg(roots)
 	return c2
